@@ -709,6 +709,24 @@ func wrapsErr(v, errV ssa.Value) bool {
 	return false
 }
 
+// ruleRecoverSites: recover() is called in errlog.HandleAbort only.
+func ruleRecoverSites(p *Prog, r *Report, rule, why string) {
+	n := 0
+	for _, fn := range allModFuncs(p) {
+		for _, cs := range callsOf(fn) {
+			if b, ok := cs.In.Common().Value.(*ssa.Builtin); ok && b.Name() == "recover" {
+				top := fn
+				for top.Parent() != nil {
+					top = top.Parent()
+				}
+				n++
+				r.add(rule, "recover-site|"+shortName(fn), p.ipos(cs.In), "recover() only inside errlog.HandleAbort", shortName(top) == "errlog.HandleAbort", why)
+			}
+		}
+	}
+	r.floor(rule, "recover sites", n, 1)
+}
+
 func ruleSaveLast(p *Prog, m *Model, r *Report) {
 	r.rule("R09.2b", "Save/commit sites (console commands with the constant 'write memory'; the PAN-OS query beginning 'type=commit') are plain calls — never deferred or started as goroutine, at any level of the call chain down from ApplyCommands; in ApplyCommands no call that can send to the device is reachable after the call that performs the save; no function of the apply region calls recover(), so an abort in the change loop unwinds past the save; the device's reply to the save decides over success (it is tested and guards errlog.Abort, or every nil-error return of the committing function is control dependent on it).")
 	cg := p.CG()
@@ -726,18 +744,7 @@ func ruleSaveLast(p *Prog, m *Model, r *Report) {
 		r.ok("R09.2b", "no-recover-in-apply-region", "", fmt.Sprintf("no recover() in %d apply-region functions", len(applyRegionFuncs(p, m))))
 	}
 	// the only recover in the module is errlog.HandleAbort's
-	for _, fn := range allModFuncs(p) {
-		for _, cs := range callsOf(fn) {
-			if b, ok := cs.In.Common().Value.(*ssa.Builtin); ok && b.Name() == "recover" {
-				top := fn
-				for top.Parent() != nil {
-					top = top.Parent()
-				}
-				r.add("R09.2b", "recover-site|"+shortName(fn), p.ipos(cs.In), "recover() only inside errlog.HandleAbort", shortName(top) == "errlog.HandleAbort",
-					"a second recover can turn an abort into a normal continuation")
-			}
-		}
-	}
+	ruleRecoverSites(p, r, "R09.2b", "a second recover can turn an abort into a normal continuation")
 	// save sites
 	type saveSite struct {
 		cs   *callSite
